@@ -134,15 +134,41 @@ def run_script(script, stop_at, mode, bo, unbind_answer, horizon):
         s.smsc.bind = bind
         s.smsc.unbind_answer = unbind_answer
         s.smsc.close_on_eof = unbind_answer
-        if stop_at is not None:
+        if stop_at is not None and stop_at > 0:
             s.at(stop_at, s.stop)
-        res = s.run(horizon)
+        res = s.run(horizon, stop_first=(stop_at == 0))
         ev = list(s.events)
         conns = [(c.idx, c.closed, c.eof_written, [p[4:8] for p in c.pdus]) for c in s.smsc.conns]
         state = s.esme.session_state.name
     finally:
         s.close()
     return res, ev, conns, state
+
+
+def backoff_predicate(script, connects, bound, bo, stop_at):
+    """the back-off law from the property, on the observed attempt times: within a streak of consecutive failures the
+    delay before the next attempt starts at no more than min, doubles up to the cap; it starts over after a bind"""
+    mn, cap = bo[0] / 1000.0, bo[0] * 2 ** bo[1] / 1000.0
+    prev = None          # previous delay in the current streak
+    for i, o in enumerate(script):
+        if i + 1 >= len(connects):
+            break
+        if stop_at is not None and connects[i + 1] >= stop_at:
+            break
+        if o[0] == 'session':
+            prev = 'bound'
+            continue
+        dur = {'hang': S, 'silent': S}.get(o[0], 0.0)
+        d = connects[i + 1] - connects[i] - dur
+        if prev is None or prev == 'bound':
+            if d > mn + 1e-6:
+                return 'first retry delay %.3f s exceeds the minimum %.3f' % (d, mn)
+        else:
+            want = mn if prev < 1e-9 else min(2 * prev, cap)
+            if abs(d - want) > 1e-6:
+                return 'retry delay %.3f s after a delay of %.3f s (min %.3f, cap %.3f): expected %.3f' % (d, prev, mn, cap, want)
+        prev = d
+    return None
 
 
 def case_of(rng):
@@ -158,7 +184,7 @@ def case_of(rng):
     # depend on callback order, which the model does not describe
     stop_at = None if rng.random() < 0.15 else round(rng.uniform(0, total), 3) + 0.0007
     if stop_at is not None and rng.random() < 0.1:
-        stop_at = 0.0007
+        stop_at = rng.choice((0.0007, 0))         # 0: stop() before start() takes its first step
     unbind_answer = rng.random() < 0.8
     return make_case(script, stop_at, mode, bo, unbind_answer)
 
@@ -209,6 +235,8 @@ def make_case(script, stop_at, mode, bo, unbind_answer):
                                     and e[3][12:16] == p0 for e in ev for p0 in [b''])
         where = [e for e in ev if e[1] == 'stop-called']
         stopped_where = where[0][2] if where else 'never'
+    if fail is None:
+        fail = backoff_predicate(script, connects, bound, bo, stop_at)
     if any(e[1] == 'start-ended' and e[2] not in (None,) for e in ev) and fail is None:
         fail = 'start() ended with %s' % ended[0][2]
     # model line: stop while bound -> wind-down latency is what was observed when the peer stays silent
